@@ -163,6 +163,15 @@ def run(R):
                 term = body._origin_def(('call', bb, t), 0, {0})
                 st2 = dict(st)
                 st2['ret'] = frozenset([(classify_ret(body, term), err_source(body, term), bb)])
+            if t.get('name') == 'replace' and 'mem::replace' in fn:
+                tgt = strip_refs(body.origin(t['args'][0]))
+                if tgt[0] == 'field' and tgt[2] == 'state':
+                    vt = strip_refs(body.origin(t['args'][1]))
+                    st2 = dict(st2 or st)
+                    if vt[0] == 'agg' and vt[1].get('adt', '').endswith('decode::State'):
+                        st2['st'] = frozenset(err_payload_kind(body, vt[2]) if vt[1]['variant'] == 'Error' else {'Live'})
+                    else:
+                        st2['st'] = frozenset({'Live', 'ErrSome', 'ErrNone'})
             if t.get('name') == 'take' and 'Option' in fn:
                 tgt = strip_refs(body.origin(t['args'][0]))
                 # (state as Error).0
